@@ -521,6 +521,31 @@ gen_c02_solid_mask (gen_t *g, rng_t *r, scenario_t *sc)
     }
 }
 
+/* the "pixbuf" idiom: non-premultiplied x888 source and a888 mask over the very same bits,
+ * composited OVER onto 8888 / 0565 (special-cased by the dispatcher and by fast, mmx, sse2) */
+static void
+gen_c02_pixbuf (gen_t *g, rng_t *r, scenario_t *sc)
+{
+    static const pixman_format_code_t xs[2] = { PIXMAN_x8b8g8r8, PIXMAN_x8r8g8b8 }, as[2] = { PIXMAN_a8b8g8r8, PIXMAN_a8r8g8b8 };
+    static const pixman_format_code_t df[] = { PIXMAN_a8r8g8b8, PIXMAN_x8r8g8b8, PIXMAN_r5g6b5, PIXMAN_a8b8g8r8, PIXMAN_b5g6r5, PIXMAN_x8b8g8r8 };
+    int order = (int)rng_n (r, 2), i, k, fx = 0, fa = 0, fd = 0, n_req = (int)rng_range (r, 3, 8);
+    pixman_format_code_t want = df[rng_n (r, 6)];
+    int W = gen_pick_size (g, 140), H = (int)rng_range (r, 1, 5);
+    sc_set (sc, "chains", 0xffffffffll);
+    for (k = 0; k < sim_n_formats; k++) { if (sim_formats[k] == xs[order]) fx = k; if (sim_formats[k] == as[order]) fa = k; if (sim_formats[k] == want) fd = k; }
+    gen_bits_exact (g, 0, fd, W + (int)rng_n (r, 3), H, (int)rng_n (r, 2), rng_chance (r, 1, 6), (int)rng_n (r, 16), 0);
+    gen_bits_exact (g, 2, fx, W, H, (int)rng_n (r, 2), 0, (int)rng_n (r, 16), 0);
+    gen_alias (g, 3, 2, fa);
+    for (i = 0; i < n_req; i++)
+    {
+	int sx = rng_chance (r, 2, 3) ? 0 : (int)rng_range (r, 0, 5), sy = rng_chance (r, 2, 3) ? 0 : (int)rng_range (r, 0, H - 1);
+	int64_t c[16] = { 0, 0, 0, rng_chance (r, 4, 5) ? 3 : (int64_t)rng_n (r, 14), 2, 3, 0, sx, sy, sx, sy, rng_n (r, 4), 0, W, H };
+	if (rng_chance (r, 1, 6)) c[9] += 1;             /* mask offset differs: not a pixbuf request any more */
+	sc_addv (sc, MOP_COMPOSITE, 15, c);
+	if (rng_chance (r, 1, 3)) { int64_t sb[5] = { 0, 0, 0, 2, (int64_t)(rng_u64 (r) >> 20) }; sc_addv (sc, MOP_SCRIBBLE, 5, sb); }
+    }
+}
+
 static void
 gen_c02 (gen_t *g, rng_t *r, scenario_t *sc)
 {
@@ -693,9 +718,9 @@ gen_c04_scaled_fit (gen_t *g, rng_t *r, scenario_t *sc)
     static const pixman_format_code_t sf[] = { PIXMAN_a8r8g8b8, PIXMAN_x8r8g8b8, PIXMAN_r5g6b5, PIXMAN_a8, PIXMAN_a8r8g8b8 };
     static const pixman_format_code_t df[] = { PIXMAN_a8r8g8b8, PIXMAN_x8r8g8b8, PIXMAN_r5g6b5, PIXMAN_a8r8g8b8 };
     static const int ops[] = { 1, 3, 12, 5, 7, 11, 3, 12 };
-    static const int64_t eps[] = { 0, 0, 1, -1, 32768, -32768, 32767, 32769, 2, 65535 };
+    static const int64_t eps[] = { 0, 0, 1, -1, 32768, -32768, 32767, 32769, 2, 65535, 16384, -16384, 49152, 8192 };
     uint32_t chains = (1u << REF_CHAIN) | 1u | (1u << CHAIN_SSE2) | (1u << (CHAIN_SSE2 | CHAIN_SSSE3));
-    int SW = (int)rng_range (r, 1, 24), SH = (int)rng_range (r, 1, 4), k, fi[2], i, n_req = (int)rng_range (r, 3, 8);
+    int SW = rng_chance (r, 1, 3) ? (int)rng_range (r, 60, 80) : (int)rng_range (r, 1, 24), SH = (int)rng_range (r, 1, 4), k, fi[2], i, n_req = (int)rng_range (r, 3, 8);
     int num = (int)rng_range (r, 1, 4), den = (int)rng_range (r, 1, 4);         /* destination = source * num / den */
     int64_t sx = (int64_t)65536 * den / num, sy = rng_chance (r, 1, 2) ? 65536 : sx;
     int DWI = SW * num / den + 3, DHI = (sy == 65536 ? SH : SH * num / den + 2);
@@ -712,7 +737,7 @@ gen_c04_scaled_fit (gen_t *g, rng_t *r, scenario_t *sc)
     gen_bits_exact (g, 3, k, DWI + 2, DHI + 1, 0, 0, 0, 8);
     for (i = 0; i < n_req; i++)
     {
-	int64_t a[14] = { 0, 0, 0, 2, 0, sx, 0, eps[rng_n (r, 10)], 0, sy, eps[rng_n (r, 10)], 0, 0, 65536 };
+	int64_t a[14] = { 0, 0, 0, 2, 0, sx, 0, eps[rng_n (r, 14)], 0, sy, eps[rng_n (r, 14)], 0, 0, 65536 };
 	int64_t f[9] = { 0, 0, 0, 2, rng_chance (r, 1, 2) ? PIXMAN_FILTER_NEAREST : PIXMAN_FILTER_BILINEAR, 1, 1, 0, 0 };
 	int64_t rp[5] = { 0, 0, 0, 2, rng_n (r, 4) };
 	int w = SW * num / den + (int)rng_range (r, -1, 1), h = (sy == 65536 ? SH : SH * num / den) + (int)rng_range (r, -1, 0);
@@ -828,6 +853,7 @@ generate (uint64_t seed, int tier, const char *property, scenario_t *sc)
     {
     case 0: case 1: gen_c02_scaled (&g, &r, sc); break;
     case 2: gen_c02_solid_mask (&g, &r, sc); break;
+    case 3: if (rng_chance (&r, 1, 2)) gen_c02_pixbuf (&g, &r, sc); else gen_c02 (&g, &r, sc); break;
     default: gen_c02 (&g, &r, sc); break;
     }
 }
